@@ -443,7 +443,7 @@ def run(rep, ctx):
 
     broken = []
     for fn_, args_ in ((rule_X1, (rep, funcs)), (rule_A1, (rep, funcs, F)), (rule_P1, (rep, funcs)), (rule_D1, (rep, funcs)), (rule_K1, (rep, funcs)), (rule_M1, (rep, funcs)),
-                       (rule_P2, (rep, funcs)), (rule_R1, (rep, funcs)), (rule_H1, (rep, repo)), (rule_H2, (rep, repo)), (rule_K2, (rep, repo)), (rule_L1, (rep, funcs))):
+                       (rule_P2, (rep, funcs)), (rule_R1, (rep, funcs)), (rule_H1, (rep, repo)), (rule_H2, (rep, repo)), (rule_K2, (rep, repo)), (rule_L1, (rep, funcs)), (rule_L2, (rep, repo))):
         try:
             fn_(*args_)
         except AnalysisBroken as ab:
@@ -883,6 +883,106 @@ def local_inits(f):
 
 
 F_K1 = [None]
+
+
+def rule_L2(rep, repo):
+    """the breakpoint form of a piecewise-linear term given by slopes: evaluated on modelled breakpoint / slope lists"""
+    from ..cfg import MiniInt
+    from ..facts import export_many
+    l2 = rep.rule("C01.L2", "TABLE", "a piecewise-linear term given by breakpoints and slopes is turned into points of the same function "
+                  "(through the reference point, with the given slopes), wherever the breakpoints lie relative to the reference point", floor=5)
+    F = Facts(export_many([dict(unit="src/mp/flat/piecewise_linear.cpp", fn=[r"mp::PLPoints::PLPoints"], repo=repo)]))
+    cs = [f for f in F.funcs if f.qn == "mp::PLPoints::PLPoints" and f.params and "PLSlopes" in (f.params[0].get("ct") or f.params[0].get("t") or "") and f.cfg is not None]
+    if not cs:
+        raise AnalysisBroken("C01.L2: PLPoints(const PLSlopes&) not found")
+    f = cs[0]
+    CASES = [([-5.0, -3.0], [1.0, 2.0, 3.0]), ([1.0, 3.0], [2.0, -1.0, 0.5]), ([-1.0, 2.0], [1.0, 0.0, 4.0]), ([-3.0, -1.0], [2.0, 1.0, -2.0]),
+             ([0.0], [-1.0, 1.0]), ([4.0], [3.0, 1.0]), ([-6.0], [0.5, 2.0]), ([-2.0, 0.0, 5.0], [1.0, 2.0, 3.0, 4.0])]
+    for bp, sl in CASES:
+        arr = {"x_": [], "y_": [], "bp": list(bp), "sl": list(sl)}
+        box = {}
+
+        def which(node):
+            t = render(node).replace(" ", "").replace("this->", "")
+            for nm in ("x_", "y_", "bp", "sl"):
+                if t == nm or t.endswith("." + nm) or t == "pls.Get%s()" % {"bp": "BP", "sl": "Slopes"}.get(nm, "?"):
+                    return nm
+            return None
+
+        def atom(t_, n_, env_):
+            k_ = n_["k"]
+            if k_ == "CXXOperatorCallExpr" and n_.get("op") == "[]":
+                nm = which(call_args(n_)[0])
+                if nm:
+                    i_ = int(box["mi"].expr(call_args(n_)[1], env_, 0))
+                    if not (0 <= i_ < len(arr[nm])):
+                        raise AnalysisBroken("index %d outside %s (size %d)" % (i_, nm, len(arr[nm])))
+                    return arr[nm][i_]
+            if k_ == "CXXMemberCallExpr":
+                cn_ = (n_.get("callee") or "").split("::")[-1]
+                ob_ = which(call_object(n_)) if call_object(n_) is not None else None
+                if cn_ == "size" and ob_:
+                    return len(arr[ob_])
+                if cn_ == "resize" and ob_:
+                    n_new = int(box["mi"].expr(call_args(n_)[0], env_, 0))
+                    arr[ob_] = (arr[ob_] + [0.0] * n_new)[:n_new]
+                    return 0
+                if cn_ == "GetX0":
+                    return 0.0
+                if cn_ == "GetY0":
+                    return 0.0
+            if k_ == "CallExpr" and (n_.get("callee") or "").split("::")[-1] == "copy" and len(call_args(n_)) == 3:
+                a0, a1, a2 = [render(x).replace(" ", "").replace("this->", "") for x in call_args(n_)]
+                m_ = re.match(r"^(\w+)\.begin\(\)(\+(\d+))?$", a2)
+                if a0 in ("bp.begin()", "pls.GetBP().begin()") and a1 in ("bp.end()", "pls.GetBP().end()") and m_ and m_.group(1) in arr:
+                    off = int(m_.group(3) or 0)
+                    for j_, v_ in enumerate(arr["bp"]):
+                        if not (0 <= off + j_ < len(arr[m_.group(1)])):
+                            raise AnalysisBroken("copy writes outside %s" % m_.group(1))
+                        arr[m_.group(1)][off + j_] = v_
+                    return 0
+            return None
+
+        def store(t_, n_, val, env_):
+            if n_["k"] == "CXXOperatorCallExpr" and n_.get("op") == "[]":
+                nm = which(call_args(n_)[0])
+                if nm:
+                    i_ = int(box["mi"].expr(call_args(n_)[1], env_, 0))
+                    if not (0 <= i_ < len(arr[nm])):
+                        raise AnalysisBroken("store at %d outside %s" % (i_, nm))
+                    arr[nm][i_] = val
+                    return True
+            return False
+        mi = MiniInt(F, atom)
+        mi.store = store
+        box["mi"] = mi
+        why = None
+        try:
+            mi.call(f, [("obj", None, None)])
+        except AnalysisBroken as e_:
+            if "without a return" not in str(e_):
+                why = "not evaluable: %s" % str(e_)[:100]
+        if why is None:
+            # the function with these slopes through (0, 0): value at x
+            def fval(x):
+                pts = [0.0] + sorted(bp)
+                segs = list(zip([float("-inf")] + list(bp), list(bp) + [float("inf")], sl))
+                tot, lo_, hi_ = 0.0, min(0.0, x), max(0.0, x)
+                for a, b, s_ in segs:
+                    l, h = max(a, lo_), min(b, hi_)
+                    if h > l:
+                        tot += s_ * (h - l)
+                return tot if x >= 0 else -tot
+            xs, ys = arr["x_"], arr["y_"]
+            if len(xs) != len(sl) + 1 or xs[1:-1] != list(bp) or not (xs[0] < bp[0] and xs[-1] > bp[-1]):
+                why = "points x = %s for breakpoints %s" % (xs, bp)
+            else:
+                bad = [(x_, y_, fval(x_)) for x_, y_ in zip(xs, ys) if abs(y_ - fval(x_)) > 1e-9]
+                if bad:
+                    why = "point (%g, %g) is not on the function (value there: %g)" % bad[0]
+        l2.check(why is None, "pl-points|bp=%s" % ",".join("%g" % b for b in bp), short_loc(f.loc),
+                 "breakpoints %s, slopes %s: every point lies on the function through the origin" % (bp, sl),
+                 "breakpoints %s, slopes %s: %s - the delivered piecewise-linear function differs from the term by a constant" % (bp, sl, why))
 
 
 def rule_K1(rep, funcs):
